@@ -132,6 +132,20 @@ func c18HeaderHist(r *core.Run, dictCap, pre, hist int, t [41]int64) {
 			w0.Write([]byte("first"))
 			w0.Close()
 			cfg.DictCap = dictCap
+		case 3:
+			// the configuration is taken from a writer that has already written a block (the
+			// Writer embeds its WriterConfig), changed, and used for a new writer
+			cfg.DictCap = pre
+			var first sinkBuf
+			w0, e0 := cfg.NewWriter(&first)
+			if e0 != nil {
+				err = e0
+				return
+			}
+			w0.Write([]byte("first"))
+			w0.Close()
+			cfg = w0.WriterConfig
+			cfg.DictCap = dictCap
 		}
 		w, err = cfg.NewWriter(&sink)
 		if err == nil {
@@ -160,7 +174,7 @@ func c18HeaderHist(r *core.Run, dictCap, pre, hist int, t [41]int64) {
 		sig, d := "header wrong-dict-code", fmt.Sprintf("DictCap=%d", dictCap)
 		if hist > 0 {
 			sig += " (configuration variable reused)"
-			d = fmt.Sprintf("configuration variable: DictCap=%d, %s, then DictCap=%d, NewWriter", pre, map[int]string{1: "Verify()", 2: "NewWriter + Write + Close"}[hist], dictCap)
+			d = fmt.Sprintf("configuration variable: DictCap=%d, %s, then DictCap=%d, NewWriter", pre, map[int]string{1: "Verify()", 2: "NewWriter + Write + Close", 3: "NewWriter + Write + Close, configuration copied back from that writer"}[hist], dictCap)
 		}
 		r.Violate(cs, sig, d, fmt.Sprintf("code %d", code), fmt.Sprintf("code %d", want))
 	}
@@ -299,7 +313,7 @@ func runC18(r *core.Run) {
 	for _, a := range hm {
 		for _, b := range hm {
 			if a != b {
-				hcs = append(hcs, hc{a, b, 1}, hc{a, b, 2})
+				hcs = append(hcs, hc{a, b, 1}, hc{a, b, 2}, hc{a, b, 3})
 			}
 		}
 	}
